@@ -407,18 +407,21 @@ def lib_reg(acc, model, builtin, c, j, case, gen):
 # ---------------------------------------------------------------------------------------- CLI level
 
 def project_replay(P):
-    return {"config": P.config, "files": {k.hex(): v for k, v in P.files.items()}, "late": {k.hex(): v for k, v in P.late.items()},
-            "baseline": P.baseline, "customs": P.customs, "tags": sorted(P.tags)}
+    enc_c = lambda v: v if isinstance(v, str) else {"hex": v.hex()}
+    return {"config": P.config, "files": {k.hex(): enc_c(v) for k, v in P.files.items()}, "late": {k.hex(): enc_c(v) for k, v in P.late.items()},
+            "baseline": P.baseline, "customs": P.customs, "tags": sorted(P.tags), "unreadable": [k.hex() for k in getattr(P, "unreadable", [])]}
 
 
 def project_from_replay(j):
     P = Project()
     P.config = j["config"]
-    P.files = {bytes.fromhex(k): v for k, v in j["files"].items()}
-    P.late = {bytes.fromhex(k): v for k, v in j.get("late", {}).items()}
+    dec_c = lambda v: v if isinstance(v, str) else bytes.fromhex(v["hex"])
+    P.files = {bytes.fromhex(k): dec_c(v) for k, v in j["files"].items()}
+    P.late = {bytes.fromhex(k): dec_c(v) for k, v in j.get("late", {}).items()}
     P.baseline = j.get("baseline", False)
     P.customs = [tuple(c) for c in j.get("customs", [])]
     P.tags = set(j.get("tags", []))
+    P.unreadable = [bytes.fromhex(k) for k in j.get("unreadable", [])]
     return P
 
 
@@ -427,10 +430,23 @@ def write_files(sb, files, skipped):
         p = os.path.join(os.fsencode(sb.proj), rel)
         try:
             os.makedirs(os.path.dirname(p), exist_ok=True)
-            with open(p, "w") as f:
+            with open(p, "wb" if isinstance(content, bytes) else "w") as f:
                 f.write(content)
         except OSError:
             skipped.append(rel.hex())
+
+
+def chmod_unreadable(sb, P):
+    """files tagged unreadable lose their read permission (no effect when the check runs as root)"""
+    n = 0
+    if os.geteuid() != 0:
+        for rel in getattr(P, "unreadable", []):
+            try:
+                os.chmod(os.path.join(os.fsencode(sb.proj), rel), 0)
+                n += 1
+            except OSError:
+                pass
+    return n
 
 
 def strip1(s):
@@ -468,6 +484,8 @@ def run_project(sgcli, model, builtin, gen, P, det_full, verbose_log=None):
         acc.hist["cli:files-rejected-by-fs"] += len(skipped)
         names = [k for k in list(P.files) + list(P.late) if k.hex() not in skipped]
         acc.hist["cli:files-written"] += len(names)
+        acc.hist["cli:files-with-non-utf8-content"] += sum(1 for k in names if isinstance(P.files.get(k, P.late.get(k)), bytes))
+        acc.hist["cli:files-unreadable-mode-000"] += chmod_unreadable(sb, P)
         acc.hist["cli:names-not-utf8"] += sum(1 for k in names if "\ufffd" in lossy(k))
         acc.hist["cli:names-with-html-specials"] += sum(1 for k in names if any(c in lossy(k) for c in "<>&\"'"))
         acc.hist["cli:names-with-newline-or-control"] += sum(1 for k in names if any(ord(c) < 32 or ord(c) == 127 for c in lossy(k)))
@@ -495,6 +513,15 @@ def run_project(sgcli, model, builtin, gen, P, det_full, verbose_log=None):
             acc.hist["cli:has-" + st] += 1
         if any(r.get("violation_category", {}).get("category") == "structure" for r in J["rows"]):
             acc.hist["cli:has-structure-result"] += 1
+        # the two shapes on which generate_split_suggestions cannot read what a Failed/Warning result names
+        nonutf8 = {("./" + lossy(k)).replace("\\", "/") for k, v in list(P.files.items()) + list(P.late.items()) if isinstance(v, bytes)}
+        for r in J["rows"]:
+            if r["status"] in ("failed", "warning"):
+                if r["path"] in nonutf8:
+                    acc.hist["cli:issue-on-file-with-non-utf8-content"] += 1
+                if r.get("violation_category", {}).get("category") == "structure" and r["path"].rsplit("/", 1)[-1].rsplit(".", 1)[-1] in builtin \
+                        and "." in r["path"].rsplit("/", 1)[-1].lstrip("."):
+                    acc.hist["cli:structure-issue-on-language-like-directory"] += 1
         # ---- B. side-cars and presentation flags
         wj, ws, rj = (os.path.join(side, n) for n in ("w.json", "w.sarif", "r.json"))
         rc, out, err = run([], ["check"], ["--write-json", wj, "--write-sarif", ws, "--report-json", rj] + tail)
@@ -536,6 +563,21 @@ def run_project(sgcli, model, builtin, gen, P, det_full, verbose_log=None):
                         acc.fails.append(("--suggest html: entries differ or markup injected / unescaped: %s" % (H["foreign"] + H["unsafe"])[:2], case))
                 except Bad as e:
                     acc.fails.append(("--suggest html not parseable: %s" % e, case))
+        # --suggest against the plain run, format by format: same exit code, same listing, same summary
+        plain = dict(outs)
+        for name in FORMATS + ["text_v"]:
+            fmt = "text" if name == "text_v" else name
+            rc, out, err = run(["-v"] if name == "text_v" else [], ["check"], ["--suggest", "--format", fmt] + tail)
+            if rc != rc0:
+                acc.fails.append(("--suggest --format %s%s changes the exit code: %s vs %s" % (fmt, " -v" if name == "text_v" else "", rc, rc0), case))
+            try:
+                a, b = PARSERS[fmt](out), PARSERS[fmt](plain[name])
+                if a["entries"] != b["entries"] or a.get("summary") != b.get("summary"):
+                    d = [x for x in a["entries"] if x not in b["entries"]][:2] + [x for x in b["entries"] if x not in a["entries"]][:2]
+                    acc.fails.append(("--suggest changes the results listed by %s: %s; summary %s vs %s" % (name, d, a.get("summary"), b.get("summary")), case))
+            except Bad as e:
+                acc.fails.append(("--suggest --format %s not parseable: %s" % (fmt, e), case))
+        acc.hist["cli:suggest-vs-plain-comparisons"] += len(FORMATS) + 1
         rc, out, err = run([], ["check"], ["--suggest", "--format", "json"] + tail)
         try:
             JS = parse_check_json(out)
